@@ -74,9 +74,10 @@ Direction "parser ⇒ writer", by induction on the parser's fuel (fragments are 
 * content preservation when position-restricted items are out of order (`content_preserved_statement`): the written
   stream is then a permutation. Proved: the in-order case (`content_preserved`), and
   `content_preserved_up_to_sibling_order`: for EVERY reordering of siblings (`OT.SibL`, at every depth) the values of
-  the written tokens are a permutation of the input values without the dropped comments. Not proved:
-  `writer_order_is_sibling_permutation_statement` (the order `stringify` produces — `Canon` — IS such a reordering of
-  the input order);
+  the written tokens are a permutation of the input values without the dropped comments;
+  `writer_order_is_sibling_permutation`: the order `stringify` produces (`Canon`) IS such a reordering of the input
+  order; hence `content_preserved_perm : content_preserved_statement`; refinement `writer_order_is_position_reordering`
+  (`OT.SibPL`): only position-restricted items change places, every other item keeps its index;
 * (was open, now proved: the tokenizer facts `identText`, `cmtText`, `lineCmt` of `InOk` from `Model/Lex.lean` —
   `lexer_token_shapes`, `inOk_of_lexer` — and the driver's fuel — `needL_le_tokens`, `save_reload_stable_strict_run`.)
 
@@ -321,9 +322,9 @@ theorem parse_file_post {e : Env} {lx : LexEnv} (hin : InOk e lx) (X : Array PTo
 /-! ## theorem 2: content preservation -/
 
 /-- **C02 as stated** (token level): the value sequence of the written tokens is that of the input tokens up to a
-    permutation of position-restricted items within each tagged part and up to dropped comments. Only the case in which
-    the position-restricted items are in order (`OT.posAll`, then the permutation is the identity) is proved:
-    `content_preserved`. -/
+    permutation of position-restricted items within each tagged part and up to dropped comments. Proved: `content_preserved_perm` (below, with
+    `writer_order_is_sibling_permutation`); in the case in which the position-restricted items are in order
+    (`OT.posAll`) the permutation is the identity: `content_preserved`. -/
 def content_preserved_statement : Prop :=
   ∀ (e : Env) (lx : LexEnv) (rarms : List Arm) (fuel : Nat) (v : Val) (s : PState),
     InOk e lx → tableOk e.table e.known = true → shapeOk e.table = true → TagsOk e → NoSpecialOk e → RootOk e rarms →
@@ -767,15 +768,91 @@ theorem content_preserved_up_to_sibling_order {e : Env} {lx : LexEnv} (hin : InO
         Pres (valuesOf e.toks) perm :=
   content_preserved_perm_lemma hin htab hshape htags hns hroot h
 
-/-- what is missing for `content_preserved_statement`: the order in which `stringify` writes (`Canon`) is a reordering of
-    siblings of the input order. NOT proved (needs: `sortGE` permutes; `InOrder`'s per-arm filters partition `items`;
-    recursion through `Canon` / `InOrder`). With it, `content_preserved_up_to_sibling_order` gives
-    `content_preserved_statement`. -/
-def writer_order_is_sibling_permutation_statement : Prop :=
-  ∀ (e : Env) (lx : LexEnv) (rarms : List Arm) (fuel : Nat) (v : Val) (s : PState) (items : List OT),
-    InOk e lx → tableOk e.table e.known = true → shapeOk e.table = true → TagsOk e → NoSpecialOk e → RootOk e rarms →
-    parseFile fuel e {} = .ok v s → InOrder e v items →
-    ∃ items', OT.SibL items items' ∧ Canon e v items'
+/-- **the writer's sort is a permutation** of the group entries (`sortGE` = `apply_position_restrictions` ∘ sort by key) -/
+theorem sortGE_is_permutation (code : List CodeEntry) (ges : List GE) : (sortGE code ges).Perm ges :=
+  sortGE_perm code ges
+
+/-- **the order in which `stringify` writes is a reordering of siblings of the input order** (at every depth), for
+    every strict load: `items` = the sub-elements of the loaded value in input order (`InOrder`), `items'` = the same in
+    the writer's order (`Canon`); the values of the two token streams are permutations of each other, and those of
+    `items` are the input values without the dropped comments. Proof: the parser induction (`parse_goals`) carries, beside
+    "`Canon` if in position order", the unconditional "`Canon` for some sibling reordering" (`NodeFacts.sibc`,
+    `LInv.toSibCanon`: the accumulated group entries are a permutation of the items read, `sortGE` permutes them).
+    (The earlier draft `writer_order_is_sibling_permutation_statement` quantified over ALL `items` with
+    `InOrder e v items`; that is more than is needed, and `InOrder` does not constrain items whose arm index is out of
+    range, so that form was not pursued: the statement is about the items the parser read.) -/
+theorem writer_order_is_sibling_permutation {e : Env} {lx : LexEnv} (hin : InOk e lx)
+    (htab : tableOk e.table e.known = true) (hshape : shapeOk e.table = true) (htags : TagsOk e) (hns : NoSpecialOk e)
+    {rarms : List Arm} (hroot : RootOk e rarms) {fuel : Nat} {v : Val} {s : PState} (h : parseFile fuel e {} = .ok v s) :
+    ∃ items items', InOrder e v items ∧ OT.SibL items items' ∧ Canon e v items' ∧
+      (valuesOf (mkToks lx (OT.toksL 0 (OT.fixL false items))).toArray).Perm
+        (valuesOf (mkToks lx (OT.toksL 0 (OT.fixL false items'))).toArray) ∧
+      Pres (valuesOf e.toks) (valuesOf (mkToks lx (OT.toksL 0 (OT.fixL false items))).toArray) := by
+  obtain ⟨items, items', a, b, c, d, f⟩ := content_preserved_perm_full hin htab hshape htags hns hroot h
+  exact ⟨items, items', a, b.toSibL, c, d, f⟩
+
+/-! ### only position-restricted items change places -/
+
+/-- `OT.SibPL code items items'`: a reordering of siblings (at every depth) in which only position-restricted items
+    (`OT.pos code` is `some`: the arm's type has a position restriction) change places; every other item keeps its
+    index. Generated by related heads, the exchange of two position-restricted items (anything in between stays),
+    transitivity. -/
+example (code : List CodeEntry) (x y : OT) (m l : List OT) (hx : (x.pos code).isSome = true) (hy : (y.pos code).isSome = true) :
+    OT.SibPL code (y :: (m ++ x :: l)) (x :: (m ++ y :: l)) := .swapFar x y m l hx hy
+example (code : List CodeEntry) (x y : OT) (xs ys : List OT) (h1 : OT.SibP code x y) (h2 : OT.SibPL code xs ys) :
+    OT.SibPL code (x :: xs) (y :: ys) := .cons x y xs ys h1 h2
+example (code : List CodeEntry) (a b c : List OT) (h1 : OT.SibPL code a b) (h2 : OT.SibPL code b c) : OT.SibPL code a c :=
+  .trans a b c h1 h2
+example (code : List CodeEntry) (i i' : Nat) (tag : List Char) (blk : Bool) (ty so so' eo eo' : Nat) (fields : List Val)
+    (items items' : List OT) (h : OT.SibPL code items items') :
+    OT.SibP code (.node i tag blk ty so eo fields items) (.node i' tag blk ty so' eo' fields items') :=
+  .node i i' tag blk ty so so' eo eo' fields items items' h
+example (code : List CodeEntry) (xs : List OT) : OT.SibPL code xs xs := OT.SibPL.refl code xs
+example (code : List CodeEntry) (ty : Nat) (fields : List Val) (i : Nat) (tag : List Char) (blk : Bool) (so eo : Nat)
+    (items : List OT) : (OT.node i tag blk ty so eo fields items).pos code = posRestrict code ty fields := rfl
+
+/-- non-vacuity: with the code table of C01's counterexample `reserved_order_model_differs` (type 1 takes its position
+    from its first parameter) two `R` keywords `R 2`, `R 1` with a comment between them exchange places -/
+example : OT.SibPL Counter.rCode
+    [.node 0 ['R'] false 1 0 0 [.int 2 false 0 5] [], .cmt "/* c */".toList 1, .node 0 ['R'] false 1 0 0 [.int 1 false 0 5] []]
+    [.node 0 ['R'] false 1 0 0 [.int 1 false 0 5] [], .cmt "/* c */".toList 1, .node 0 ['R'] false 1 0 0 [.int 2 false 0 5] []] :=
+  .swapFar (.node 0 ['R'] false 1 0 0 [.int 1 false 0 5] []) (.node 0 ['R'] false 1 0 0 [.int 2 false 0 5] [])
+    [.cmt "/* c */".toList 1] [] (by decide) (by decide)
+
+/-- a reordering of position-restricted siblings is a reordering of siblings -/
+theorem position_reordering_is_sibling_reordering {code : List CodeEntry} {items items' : List OT}
+    (h : OT.SibPL code items items') : OT.SibL items items' := h.toSibL
+
+/-- **`apply_position_restrictions` moves position-restricted items only** (any group) -/
+theorem position_restrictions_move_restricted_items_only (code : List CodeEntry) (g : List OT) :
+    OT.SibPL code g (applyPosG (OT.pos code) g) := applyPosG_sibP code g
+
+/-- reordering position-restricted siblings permutes the values of the written tokens -/
+theorem position_reordering_permutes_values (lx : LexEnv) {code : List CodeEntry} {items items' : List OT}
+    (h : OT.SibPL code items items') :
+    (valuesOf (mkToks lx (OT.toksL 0 (OT.fixL false items))).toArray).Perm
+      (valuesOf (mkToks lx (OT.toksL 0 (OT.fixL false items'))).toArray) :=
+  values_perm_of_sib lx h.toSibL
+
+/-- **the refinement of C02**: the order in which `stringify` writes differs from the input order only in the places of
+    position-restricted items (at every depth): sorting by key (uid, line) restores the input order,
+    `apply_position_restrictions` refills the slots of the restricted items -/
+theorem writer_order_is_position_reordering {e : Env} {lx : LexEnv} (hin : InOk e lx)
+    (htab : tableOk e.table e.known = true) (hshape : shapeOk e.table = true) (htags : TagsOk e) (hns : NoSpecialOk e)
+    {rarms : List Arm} (hroot : RootOk e rarms) {fuel : Nat} {v : Val} {s : PState} (h : parseFile fuel e {} = .ok v s) :
+    ∃ items items', InOrder e v items ∧ OT.SibPL e.code items items' ∧ Canon e v items' ∧
+      (valuesOf (mkToks lx (OT.toksL 0 (OT.fixL false items))).toArray).Perm
+        (valuesOf (mkToks lx (OT.toksL 0 (OT.fixL false items'))).toArray) ∧
+      Pres (valuesOf e.toks) (valuesOf (mkToks lx (OT.toksL 0 (OT.fixL false items))).toArray) :=
+  content_preserved_perm_full hin htab hshape htags hns hroot h
+
+/-- **C02 as stated, token level** (`content_preserved_statement`): the values of the tokens of the stream the writer
+    emits (`Canon e v items`: `items` in the writer's order) are a permutation of a list `perm` that is the input value
+    sequence with some comments deleted -/
+theorem content_preserved_perm : content_preserved_statement := by
+  intro e lx rarms fuel v s hin htab hshape htags hns hroot h
+  obtain ⟨items, items', -, -, hc, hp, hpres⟩ := content_preserved_perm_full hin htab hshape htags hns hroot h
+  exact ⟨items', _, hc, hp, hpres⟩
 
 /-- non-vacuity: the two top-level items of the sample, swapped -/
 example : OT.SibL Sample.items [Sample.projO, Sample.verO] := .swap Sample.projO Sample.verO []
